@@ -179,6 +179,8 @@ type World struct {
 	// cooperative scheduler (one goroutine at a time, yields inside API calls) the mutex must not be used.
 	Free bool
 	mu   sync.Mutex
+	// LoseBindResponse: the next pods/binding call is applied but answered with a time-out.
+	LoseBindResponse bool
 	// TwoInstances is set by scenarios in which an old galaxy-ipam instance finishes a request while a new one has started:
 	// the tables MemDump reads are the new instance's, which cannot know what the old one committed after its start-up list.
 	TwoInstances bool
@@ -488,7 +490,10 @@ func (w *World) FilterPod(pod *corev1.Pod) ([]string, error) {
 
 // Bind calls the plugin's Bind as kube-scheduler would for the incarnation with the given uid.
 func (w *World) Bind(ns, name, uid, node string) error {
-	return w.Plugin.Bind(&schedulerapi.ExtenderBindingArgs{PodName: name, PodNamespace: ns, PodUID: types.UID(uid), Node: node})
+	err := w.Plugin.Bind(&schedulerapi.ExtenderBindingArgs{PodName: name, PodNamespace: ns, PodUID: types.UID(uid), Node: node})
+	// Bind may queue a release event for the pod (the pod vanished while it was being bound); the release loop handles it
+	w.DrainReleaseQueue()
+	return err
 }
 
 // Schedule = Filter; pick a node (environment choice "node"); Bind. Returns the bound node or "".
@@ -892,6 +897,12 @@ func (p *podClient) Bind(ctx gocontext.Context, b *corev1.Binding, _ metav1.Crea
 		_ = w.podIdx.Update(pod.DeepCopy())
 	}
 	_ = old
+	// the binding is applied, its response may get lost (time-out): environment choice "lostresp", or LoseBindResponse
+	if w.LoseBindResponse || coop.Choose("lostresp", 2) == 1 {
+		w.LoseBindResponse = false
+		w.APILog = append(w.APILog, "LOST-RESPONSE bind pods "+p.ns+"/"+b.Name)
+		return apierrors.NewTimeoutError("the response of the binding request was lost", 1)
+	}
 	return nil
 }
 
